@@ -195,6 +195,18 @@ CHECKS = {
         assumptions=["each subscriber holds exactly one subscription per topic"],
         units=[dict(name="broker-role", test="TestC17Broker", checks=(120, 3000), shards=(4, 14), timeout=(300, 3000))]),
 
+    "C18": dict(
+        pkg="p_broker", level="exploration", race=True,
+        technique="rapid-generated concurrent workloads run under the Go race detector; reports normalised to signatures (innermost go-mqtt function of both access stacks)",
+        level_text=("6-16 raw client goroutines (connect, subscribe, unsubscribe, publish incl. retained updates on shared topics, clean and abrupt disconnects, reconnects, wills), 1-3 goroutines using "
+                    "Server.Publish/Subscribe/Unsubscribe and 0-4 library Clients connecting over TCP run truly concurrently against one broker built with -race; Server.Close is called only after every "
+                    "client connection has ended. Any race report whose two access stacks both contain go-mqtt frames is a violation (signature = sorted pair of innermost library functions). "
+                    "The detector only judges executed accesses; interleavings are whatever the scheduler produces."),
+        level_note=("Trusted: the Go race detector, the report parser in c18_test.go. Reports without two library stacks are counted, not judged. Shutdown racing with live traffic is C16's concern, not asserted here."),
+        rule=("rapid-generated workloads; non-trivial = at least three of {teardown during fan-out, retained update concurrent with subscriptions, in-process subscribe, concurrent Client.Connect} occurred; distinct = FNV-64 of the workload JSON"),
+        assumptions=["one live connection per client identifier", "the library's process-global provider registries are touched by the harness only under its own mutex"],
+        units=[dict(name="race", test="TestC18Race", checks=(200, 4000), shards=(4, 14), timeout=(300, 3000), race_log=True, shrinktime="5s")]),
+
     "C14": dict(
         pkg="p_ring", level="exploration",
         technique="property-based testing of generated producer/consumer programs against a position-dependent stream oracle; free-running and harness-controlled schedules",
